@@ -235,3 +235,74 @@ def alias_chunk(cases, extra):
                 out.append({"hist": rec["hist"], "kind": "wrong-element-type", "var": v, "runtime": want, "tifa": "%s[%s]%s" % (
                     tok, etok, " (empty)" if getattr(t, "is_empty", False) else ""), "source": lines})
     return out
+
+
+# ------------------------------------------------------------------ rebinding histories (specs/TypeRebind.tla)
+def render_rebind(hist):
+    lines = []
+    for h in hist:
+        if h["s"] == "init":
+            lines += ["a = %s" % SAMPLE[h["ta"]], "b = %s\nk = 3" % SAMPLE[h["tb"]]]
+        elif h["s"] == "assign":
+            lines.append("a = %s" % SAMPLE[h["t"]])
+        else:
+            lines.append("%s = %s %s %s" % ("a" if h["s"] == "rebind" else "c", h["l"], h["op"], h["r"]))
+    return lines + ["print(a, b, k)"]
+
+
+def rebind_chunk(cases, extra):
+    from engine.core import setup_repo_path
+    setup_repo_path()
+    from pedal.core.commands import clear_report, contextualize_report
+    from pedal.tifa import tifa_analysis
+    out = []
+    for idx, rec in cases:
+        hist, outcome = rec["hist"], rec["outcome"]
+        lines = render_rebind(hist)
+        shape = "+".join(h["s"] if h["s"] in ("init", "assign") else "%s(%s)" % (h["s"], h["op"]) for h in hist[1:])
+        env = {}
+        try:
+            exec("\n".join(lines[:2]), env)
+            for line, h in zip(lines[2:-1], hist[1:]):
+                # (3 ** (3 ** 27) and 3 << (3 << 24) are numbers no machine holds: the history ends without obligation)
+                if h["s"] != "assign" and h["op"] in ("**", "<<") and isinstance(env[h["r"]], int) \
+                        and isinstance(env[h["l"]], (int, float)) and abs(env[h["r"]]) > 4096:
+                    raise OverflowError("astronomical")
+                exec(line, env)
+            st = "ok"
+        except TypeError:
+            st = "err"
+        except Exception as ex:
+            st = "other:" + type(ex).__name__
+        if st.startswith("other") or outcome == "valuedep":
+            continue                      # (division by zero and the like: no obligation)
+        # ---- environment check: the spec's classes against CPython itself
+        if st != outcome or (st == "ok" and any(value_token(env[v]) != rec["ty"][v] for v in ("a", "b", "c"))):
+            out.append({"hist": hist, "kind": "environment", "spec": [outcome, rec["ty"]], "source": lines,
+                        "cpython": [st, {v: value_token(env.get(v)) for v in ("a", "b", "c")}]})
+            continue
+        clear_report()
+        contextualize_report("\n".join(lines) + "\n")
+        res = tifa_analysis()
+        if not res.success:
+            out.append({"hist": hist, "kind": "analysis-failed", "detail": repr(res.error), "source": lines, "shape": shape})
+            continue
+        reported = bool(res.issues.get("incompatible_types"))
+        if st == "err":
+            if not reported:
+                out.append({"hist": hist, "kind": "missed-typeerror", "source": lines, "shape": shape,
+                            "classes": {v: rec["ty"][v] for v in ("a", "b")}})
+            continue
+        if reported or res.issues.get("type_changes"):
+            continue                      # TIFA spoke up: no conformance obligation
+        for v in ("a", "c"):
+            var = res.top_level_variables.get(v)
+            tok = pedal_token(var.type) if var is not None else "missing"
+            if not conforms(rec["ty"][v], tok):
+                out.append({"hist": hist, "kind": "wrong-type", "var": v, "tifa": tok, "runtime": rec["ty"][v], "source": lines, "shape": shape})
+            elif var is not None:
+                deep = deep_mismatch(env[v], var.type)
+                if deep:
+                    out.append({"hist": hist, "kind": "wrong-element-type", "var": v, "tifa": tok, "runtime": repr(env[v])[:60],
+                                "detail": deep, "source": lines, "shape": shape})
+    return out
